@@ -191,7 +191,7 @@ def large_manifest(b, sym):
     ci.tool = HL.MHLTool("ascmhl", "1.2")
     ci.creation_date = "2020-01-15T13:00:00+00:00"
     ci.host_name = "host.local"
-    ci.comment = "x" * sym.choose("comment_length", [0, 7, 19, 37, 53, 71, 97, 113, 131, 151, 173, 199])
+    ci.comment = "x" * sym.choose("comment_length", [0, 30, 60, 90, 120, 150, 180, 210, 240, 270, 300, 330])  # sweeps one record period
     hl.creator_info = ci
     hl.process_info.process = HL.MHLProcess("in-place")
     n = 420
